@@ -40,7 +40,12 @@ pub trait HalScratchDefaults<BE: Backend>: Backend {
             "DEFAULTALIGN ({DEFAULTALIGN}) must be a multiple of align_of::<T>() ({})",
             std::mem::align_of::<T>()
         );
-        let (take_slice, rem_slice) = take_slice_aligned(scratch.data.as_mut(), len * std::mem::size_of::<T>());
+        // An element count whose byte size does not fit a usize can never fit the arena: refuse it instead
+        // of letting the product wrap and handing out a slice of `len` elements over fewer bytes.
+        let bytes: usize = len
+            .checked_mul(std::mem::size_of::<T>())
+            .unwrap_or_else(|| panic!("Attempted to take {len} elements of {} bytes from scratch", std::mem::size_of::<T>()));
+        let (take_slice, rem_slice) = take_slice_aligned(scratch.data.as_mut(), bytes);
 
         // SAFETY: `take_slice` is aligned to `DEFAULTALIGN` which is a multiple of
         // `align_of::<T>()` (asserted above). Length is `len * size_of::<T>()` bytes,
